@@ -34,6 +34,7 @@ theorem observer_rng (c : Cfg) (s : State) (op : Op) (h : op.isObserver = true) 
   | getCostB => left; simp only [step, costStep]; split <;> rfl
   | setSpec k => simp [Op.isObserver] at h
   | forward => simp [Op.isObserver] at h
+  | optStep => simp [Op.isObserver] at h
 
 /-- a call that raises leaves the state untouched altogether -/
 theorem failed_cost_leaves_state (c : Cfg) (s : State) (op : Op) (h : (step c s op).2 = .err) :
@@ -47,6 +48,7 @@ theorem failed_cost_leaves_state (c : Cfg) (s : State) (op : Op) (h : (step c s 
   | summary => simp [step] at h
   | setSpec k => simp [step] at h
   | forward => simp [step, forwardStep] at h
+  | optStep => simp [step, optStepStep] at h
 
 /-- **any number of calls in any order** — for every sequence of observer calls. -/
 theorem observers_invisible (c : Cfg) (s : State) (ops : List Op) (h : ∀ op ∈ ops, op.isObserver = true) :
@@ -102,6 +104,19 @@ theorem observers_keep_submodule_modes (c : Cfg) (s : State) (ops : List Op)
   simp only [core, obsStateExact, Prod.mk.injEq] at hc
   exact ⟨hc.2.1, hc.2.2.1, hc.2.2.2.1, hc.1⟩
 
+/-- **the next search step is the one that would have been taken** — observers between the forward and
+`loss = task + strength * cost; backward(); step()` leave the sampled coefficients attached to the autograd
+graph of the architectural parameters (same tensor object, not a detached copy), so the regularisation
+gradient exists exactly when it would have and the parameters after the optimizer step are the same -/
+theorem optimizer_step_after_observers (c : Cfg) (s : State) (ops : List Op)
+    (h : ∀ op ∈ ops, op.isObserver = true) :
+    costLive c (run c s ops) = costLive c s ∧
+    (step c (run c s ops) .optStep).1.arch = (step c s .optStep).1.arch := by
+  have hc := run_observers_core c ops h s
+  simp only [core, obsStateExact, Prod.mk.injEq] at hc
+  obtain ⟨_, _, _, _, ht, ha, _, _, _⟩ := hc
+  simp [step, optStepStep, costLive, ht, ha]
+
 /-- `export(add_bn=False)` returns what `export()` returns (the flag looks for an attribute no layer
 carries) -/
 theorem export_nobn_eq_export (c : Cfg) (s : State) : step c s .exportNoBn = step c s .exportNet := rfl
@@ -153,11 +168,11 @@ def mpsTrain : Cfg := ⟨.mps, false, false, false, false, true, true, false, fa
 def pitFrozenBn : Cfg := ⟨.pit, false, false, false, false, true, false, true, false⟩
 def snGumbel : Cfg := ⟨.sn, true, false, false, false, true, false, true, false⟩
 /-- a wrapper in training mode holding soft coefficients -/
-def training0 : State := ⟨true, true, true, true, ⟨false, none⟩, 0, 0, 0, false, .single 0, 0⟩
+def training0 : State := ⟨true, true, true, true, ⟨false, none, true⟩, 0, 0, 0, false, .single 0, 0⟩
 /-- a wrapper in training mode whose BatchNorm sub-modules were frozen with `.eval()` -/
-def frozenBn0 : State := ⟨true, true, false, true, ⟨false, none⟩, 0, 0, 0, false, .dict 0, 0⟩
+def frozenBn0 : State := ⟨true, true, false, true, ⟨false, none, true⟩, 0, 0, 0, false, .dict 0, 0⟩
 /-- a SuperNet in training mode holding a Gumbel sample -/
-def trainingG : State := ⟨true, true, true, true, ⟨false, some 0⟩, 1, 0, 0, false, .single 0, 0⟩
+def trainingG : State := ⟨true, true, true, true, ⟨false, some 0, true⟩, 1, 0, 0, false, .single 0, 0⟩
 
 /-- before fe897bf: an export in the middle of training left every inner module in eval mode and the
 hard (eval-mode) coefficients in place — `MPS.cost` read next was the hard cost -/
